@@ -166,78 +166,86 @@ theorem addRegion_name_mem {s s' : BusH ν} {n : ν} {q : Req} (h : s.addRegion 
             · cases h
             · injection h with h; subst h; simp
 
-theorem apply_inv {s s' : BusH ν} {op : BusOp ν} (hi : Inv s) (h : s.apply op = .ok s') : Inv s' := by
-  cases op with
-  | addRegion n q => exact (addRegion_inv hi h).1
-  | addMaster n =>
-    simp only [apply, addMaster] at h
+theorem addMaster_inv {s s' : BusH ν} {n : ν} (hi : Inv s) (h : s.addMaster n = .ok s') : Inv s' := by
+  simp only [addMaster] at h
+  split at h
+  · cases h
+  · rename_i hc
+    injection h with h
+    subst h
+    refine ⟨hi.names_nodup, hi.regs_ok, hi.ios_ok, hi.slaves_nodup, hi.slaves_have, ?_⟩
+    rw [List.nodup_append]
+    refine ⟨hi.masters_nodup, by simp, ?_⟩
+    intro a ha b hb
+    simp at hb
+    subst hb
+    intro e; subst e
+    simp at hc
+    exact hc ha
+
+theorem addSlave_inv {s s' : BusH ν} {n : ν} {q : Option Req} (hi : Inv s) (h : s.addSlave n q = .ok s') : Inv s' := by
+  simp only [addSlave] at h
+  -- first stage: region lookup / add_region
+  have stage : ∀ s1 : BusH ν, Inv s1 → n ∈ s1.regions.map (·.1) →
+      (if s1.slaves.contains n then (Except.error Err.dupSlave : Except Err (BusH ν))
+        else .ok { s1 with slaves := s1.slaves ++ [n] }) = .ok s' → Inv s' := by
+    intro s1 h1 hreg h
     split at h
     · cases h
     · rename_i hc
       injection h with h
       subst h
-      refine ⟨hi.names_nodup, hi.regs_ok, hi.ios_ok, hi.slaves_nodup, hi.slaves_have, ?_⟩
-      rw [List.nodup_append]
-      refine ⟨hi.masters_nodup, by simp, ?_⟩
-      intro a ha b hb
-      simp at hb
-      subst hb
-      intro e; subst e
-      simp at hc
-      exact hc ha
+      refine ⟨h1.names_nodup, h1.regs_ok, h1.ios_ok, ?_, ?_, h1.masters_nodup⟩
+      · rw [List.nodup_append]
+        refine ⟨h1.slaves_nodup, by simp, ?_⟩
+        intro a ha b hb
+        simp at hb
+        subst hb
+        intro e; subst e
+        simp at hc
+        exact hc ha
+      · intro m hm
+        simp only [List.mem_append, List.mem_singleton] at hm
+        rcases hm with hm | hm
+        · exact h1.slaves_have m hm
+        · subst hm; exact hreg
+  cases hst : s.slaveStage n q with
+  | error e => simp [hst] at h
+  | ok s1 =>
+    simp only [hst] at h
+    cases q with
+    | none =>
+      simp only [slaveStage] at hst
+      split at hst
+      · rename_i hany
+        injection hst with hst
+        subst hst
+        refine stage _ hi (Classical.byContradiction fun hc => ?_) h
+        have := (any_fst_eq_false s.regions n).2 hc
+        simp [this] at hany
+      · cases hst
+    | some q =>
+      simp only [slaveStage] at hst
+      split at hst
+      · cases hst
+      · obtain ⟨i1, _, _, _⟩ := addRegion_inv hi hst
+        refine stage _ i1 ?_ h
+        exact addRegion_name_mem hst (by simpa using ‹¬q.io = true›)
+
+theorem apply_inv [AutoNames ν] {s s' : BusH ν} {op : BusOp ν} (hi : Inv s) (h : s.apply op = .ok s') : Inv s' := by
+  cases op with
+  | addRegion n q => exact (addRegion_inv hi h).1
+  | addMaster n => exact addMaster_inv hi h
   | setIoCheck b =>
     simp only [apply] at h
     injection h with h
     subst h
     exact ⟨hi.names_nodup, hi.regs_ok, hi.ios_ok, hi.slaves_nodup, hi.slaves_have, hi.masters_nodup⟩
   | addSlave n q =>
-    simp only [apply, addSlave] at h
-    -- first stage: region lookup / add_region
-    have stage : ∀ s1 : BusH ν, Inv s1 → n ∈ s1.regions.map (·.1) →
-        (if s1.slaves.contains n then (Except.error Err.dupSlave : Except Err (BusH ν))
-          else .ok { s1 with slaves := s1.slaves ++ [n] }) = .ok s' → Inv s' := by
-      intro s1 h1 hreg h
-      split at h
-      · cases h
-      · rename_i hc
-        injection h with h
-        subst h
-        refine ⟨h1.names_nodup, h1.regs_ok, h1.ios_ok, ?_, ?_, h1.masters_nodup⟩
-        · rw [List.nodup_append]
-          refine ⟨h1.slaves_nodup, by simp, ?_⟩
-          intro a ha b hb
-          simp at hb
-          subst hb
-          intro e; subst e
-          simp at hc
-          exact hc ha
-        · intro m hm
-          simp only [List.mem_append, List.mem_singleton] at hm
-          rcases hm with hm | hm
-          · exact h1.slaves_have m hm
-          · subst hm; exact hreg
-    cases hst : s.slaveStage n q with
-    | error e => simp [hst] at h
-    | ok s1 =>
-      simp only [hst] at h
-      cases q with
-      | none =>
-        simp only [slaveStage] at hst
-        split at hst
-        · rename_i hany
-          injection hst with hst
-          subst hst
-          refine stage _ hi (Classical.byContradiction fun hc => ?_) h
-          have := (any_fst_eq_false s.regions n).2 hc
-          simp [this] at hany
-        · cases hst
-      | some q =>
-        simp only [slaveStage] at hst
-        split at hst
-        · cases hst
-        · obtain ⟨i1, _, _, _⟩ := addRegion_inv hi hst
-          refine stage _ i1 ?_ h
-          exact addRegion_name_mem hst (by simpa using ‹¬q.io = true›)
+    simp only [apply] at h
+    split at h
+    · cases h
+    · exact addSlave_inv hi h
 
 /-- No request changes the bus widths. -/
 theorem addRegion_widths {s s' : BusH ν} {n : ν} {q : Req} (h : s.addRegion n q = .ok s') :
@@ -263,40 +271,50 @@ theorem addRegion_widths {s s' : BusH ν} {n : ν} {q : Req} (h : s.addRegion n 
             · cases h
             · injection h with h; subst h; exact ⟨rfl, rfl⟩
 
-theorem apply_widths {s s' : BusH ν} {op : BusOp ν} (h : s.apply op = .ok s') : s'.aw = s.aw ∧ s'.dw = s.dw := by
-  cases op with
-  | addRegion n q => exact addRegion_widths h
-  | addMaster n =>
-    simp only [apply, addMaster] at h
+theorem addMaster_widths {s s' : BusH ν} {n : ν} (h : s.addMaster n = .ok s') : s'.aw = s.aw ∧ s'.dw = s.dw := by
+  simp only [addMaster] at h
+  split at h
+  · cases h
+  · injection h with h; subst h; exact ⟨rfl, rfl⟩
+
+theorem addSlave_widths {s s' : BusH ν} {n : ν} {q : Option Req} (h : s.addSlave n q = .ok s') :
+    s'.aw = s.aw ∧ s'.dw = s.dw := by
+  simp only [addSlave] at h
+  cases hst : s.slaveStage n q with
+  | error e => simp [hst] at h
+  | ok s1 =>
+    simp only [hst] at h
+    have h1 : s1.aw = s.aw ∧ s1.dw = s.dw := by
+      cases q with
+      | none =>
+        simp only [slaveStage] at hst
+        split at hst
+        · injection hst with hst; subst hst; exact ⟨rfl, rfl⟩
+        · cases hst
+      | some q =>
+        simp only [slaveStage] at hst
+        split at hst
+        · cases hst
+        · exact addRegion_widths hst
     split at h
     · cases h
-    · injection h with h; subst h; exact ⟨rfl, rfl⟩
+    · injection h with h; subst h; exact h1
+
+theorem apply_widths [AutoNames ν] {s s' : BusH ν} {op : BusOp ν} (h : s.apply op = .ok s') :
+    s'.aw = s.aw ∧ s'.dw = s.dw := by
+  cases op with
+  | addRegion n q => exact addRegion_widths h
+  | addMaster n => exact addMaster_widths h
   | setIoCheck b =>
     simp only [apply] at h
     injection h with h; subst h; exact ⟨rfl, rfl⟩
   | addSlave n q =>
-    simp only [apply, addSlave] at h
-    cases hst : s.slaveStage n q with
-    | error e => simp [hst] at h
-    | ok s1 =>
-      simp only [hst] at h
-      have h1 : s1.aw = s.aw ∧ s1.dw = s.dw := by
-        cases q with
-        | none =>
-          simp only [slaveStage] at hst
-          split at hst
-          · injection hst with hst; subst hst; exact ⟨rfl, rfl⟩
-          · cases hst
-        | some q =>
-          simp only [slaveStage] at hst
-          split at hst
-          · cases hst
-          · exact addRegion_widths hst
-      split at h
-      · cases h
-      · injection h with h; subst h; exact h1
+    simp only [apply] at h
+    split at h
+    · cases h
+    · exact addSlave_widths h
 
-theorem run_widths (ops : List (BusOp ν)) (s : BusH ν) : (s.run ops).aw = s.aw ∧ (s.run ops).dw = s.dw := by
+theorem run_widths [AutoNames ν] (ops : List (BusOp ν)) (s : BusH ν) : (s.run ops).aw = s.aw ∧ (s.run ops).dw = s.dw := by
   unfold run
   induction ops generalizing s with
   | nil => exact ⟨rfl, rfl⟩
@@ -310,17 +328,99 @@ theorem run_widths (ops : List (BusOp ν)) (s : BusH ν) : (s.run ops).aw = s.aw
     rw [List.foldl_cons]
     exact ⟨this.1.trans hstep.1, this.2.trans hstep.2⟩
 
-theorem step_inv {s : BusH ν} (op : BusOp ν) (hi : Inv s) : Inv (s.step op) := by
+theorem step_inv [AutoNames ν] {s : BusH ν} (op : BusOp ν) (hi : Inv s) : Inv (s.step op) := by
   unfold step
   split
   · rename_i s' h; exact apply_inv hi h
   · exact hi
 
-theorem run_inv {s : BusH ν} (ops : List (BusOp ν)) (hi : Inv s) : Inv (s.run ops) := by
+theorem run_inv [AutoNames ν] {s : BusH ν} (ops : List (BusOp ν)) (hi : Inv s) : Inv (s.run ops) := by
   unfold run
   induction ops generalizing s with
   | nil => exact hi
   | cons op ops ih => exact ih (step_inv op hi)
+
+/-! ### Masters and slaves are never lost or replaced -/
+
+omit [DecidableEq ν] in
+theorem addMaster_spec [DecidableEq ν] {s s' : BusH ν} {n : ν} (h : s.addMaster n = .ok s') :
+    s'.masters = s.masters ++ [n] ∧ n ∉ s.masters ∧ s'.slaves = s.slaves := by
+  simp only [addMaster] at h
+  split at h
+  · cases h
+  · rename_i hc
+    injection h with h
+    subst h
+    exact ⟨rfl, by simpa using hc, rfl⟩
+
+theorem addSlave_spec {s s' : BusH ν} {n : ν} {q : Option Req} (hi : Inv s) (h : s.addSlave n q = .ok s') :
+    s'.slaves = s.slaves ++ [n] ∧ n ∉ s.slaves ∧ s'.masters = s.masters := by
+  simp only [addSlave] at h
+  cases hst : s.slaveStage n q with
+  | error e => simp [hst] at h
+  | ok s1 =>
+    simp only [hst] at h
+    have h1 : s1.slaves = s.slaves ∧ s1.masters = s.masters := by
+      cases q with
+      | none =>
+        simp only [slaveStage] at hst
+        split at hst
+        · injection hst with hst; subst hst; exact ⟨rfl, rfl⟩
+        · cases hst
+      | some q =>
+        simp only [slaveStage] at hst
+        split at hst
+        · cases hst
+        · obtain ⟨_, a, b, _⟩ := addRegion_inv hi hst
+          exact ⟨a, b⟩
+    split at h
+    · cases h
+    · rename_i hc
+      injection h with h
+      subst h
+      refine ⟨by simp [h1.1], ?_, h1.2⟩
+      rw [← h1.1]
+      simpa using hc
+
+/-- An accepted request keeps every earlier master and slave registered, in place. -/
+theorem apply_prefix [AutoNames ν] {s s' : BusH ν} {op : BusOp ν} (hi : Inv s) (h : s.apply op = .ok s') :
+    s.masters <+: s'.masters ∧ s.slaves <+: s'.slaves := by
+  cases op with
+  | addRegion n q =>
+    obtain ⟨_, a, b, _⟩ := addRegion_inv hi h
+    rw [a, b]; exact ⟨List.prefix_refl _, List.prefix_refl _⟩
+  | addMaster n =>
+    obtain ⟨a, _, c⟩ := addMaster_spec h
+    rw [a, c]; exact ⟨List.prefix_append _ _, List.prefix_refl _⟩
+  | setIoCheck b =>
+    simp only [apply] at h
+    injection h with h
+    subst h
+    exact ⟨List.prefix_refl _, List.prefix_refl _⟩
+  | addSlave n q =>
+    simp only [apply] at h
+    split at h
+    · cases h
+    · obtain ⟨a, _, c⟩ := addSlave_spec hi h
+      rw [a, c]; exact ⟨List.prefix_refl _, List.prefix_append _ _⟩
+
+theorem run_prefix [AutoNames ν] {s : BusH ν} (ops : List (BusOp ν)) (hi : Inv s) :
+    s.masters <+: (s.run ops).masters ∧ s.slaves <+: (s.run ops).slaves := by
+  unfold run
+  induction ops generalizing s with
+  | nil => exact ⟨List.prefix_refl _, List.prefix_refl _⟩
+  | cons op ops ih =>
+    rw [List.foldl_cons]
+    have hstep : s.masters <+: (s.step op).masters ∧ s.slaves <+: (s.step op).slaves := by
+      unfold step
+      split
+      · rename_i s' h; exact apply_prefix hi h
+      · exact ⟨List.prefix_refl _, List.prefix_refl _⟩
+    obtain ⟨a, b⟩ := ih (step_inv op hi)
+    exact ⟨hstep.1.trans a, hstep.2.trans b⟩
+
+theorem run_append [AutoNames ν] (s : BusH ν) (a b : List (BusOp ν)) : s.run (a ++ b) = (s.run a).run b := by
+  simp [run, List.foldl_append]
 
 end BusH
 end Litex.Soc
